@@ -45,7 +45,7 @@ def Fam (st : Pc) : Pc → Bool
   | .gChk | .gLoad => st == .gChk
   | .sChk | .sInit | .sAdd _ | .sReg _ | .sSpawn _ => st == .sChk
   | .kCas _ k | .kWait _ k | .kDetP _ k | .kDetS _ k | .kSig _ k => k.okFor st
-  | .cCas k | .cWait k | .cCancel k | .cTake k | .cKids _ k | .cTakeD k | .cDrain _ k | .cDetS k | .cNil k
+  | .cCas k | .cWait k | .cCancel k | .cTake k | .cKids _ k | .cTakeD k | .cDrain _ k | .cDetS k | .cNil k | .cErr k
   | .cSig k => k.okFor st && (st == .cCas (.ret .okUnit) || st == .pCas || st == .wS)
   | .pCas | .pTake | .pScopes _ | .pRest => st == .pCas
   | .wS => st == .wS
